@@ -5,5 +5,6 @@ PC == INSTANCE PluginChain
 PInit(e) == {PC!PCInit([outer |-> e.outer, inner |-> e.inner, beh |-> e.beh])}
 PStep(s, e) == PC!PCStep(s, e)
 VARIABLES l, poss, cur, failed, skip
-INSTANCE TraceLoop WITH InitStates <- PInit, Step <- PStep
+NoOne(e) == ""
+INSTANCE TraceLoop WITH InitStates <- PInit, Step <- PStep, One <- NoOne
 =============================================================================
